@@ -173,6 +173,7 @@ class Prover:
         out = []
         i = self.atom_inst(a)
         A = Lin.atom(a)
+        for eq in self.conserved().get(a, ()): out.append(eq)            # a + other - entry == 0, used as a + other - entry <= 0
         if isinstance(a, tuple) and a[0] == "entry":
             bits = a[1][2] * 8
             if bits < 64: out.append(A - ((1 << bits) - 1))
@@ -201,6 +202,46 @@ class Prover:
         elif i.op == "urem" and i.ops[1]["k"] == "int":
             out.append(A - (int(i.ops[1]["v"]) - 1))
         return out
+    def conserved(self):
+        """loop headers where an integer phi r and a pointer phi p move in opposite directions by the same amount on every back edge
+        (`p += w; remaining -= w`): r + offset(p) keeps its entry value.  Returns {atom: [Lin == 0]}."""
+        if hasattr(self, "_cons"): return self._cons
+        self._cons = out = {}
+        fn = self.fn; fi = self.fi; loops = fn.loops()
+        for h, body in loops.items():
+            phis = [i for i in fn.bmap[h].insts if i.op == "phi"]
+            ptrs = [i for i in phis if i["t"].endswith("*")]; ints = [i for i in phis if not i["t"].endswith("*")]
+            for P in ptrs:
+                try: rootP, offP = fi.ptr({"k": "inst", "v": P.id, "t": P["t"]})
+                except RecursionError: continue
+                pa = ("pv", P.id)
+                if offP != Lin.atom(pa): continue
+                for R in ints:
+                    lr = fi.lin({"k": "inst", "v": R.id, "t": R["t"]})
+                    if lr.c != 0 or len(lr.t) != 1 or list(lr.t.values()) != [1]: continue
+                    ra = next(iter(lr.t))
+                    ok = True; entry = None
+                    for incP in P["incoming"]:
+                        incR = next((x for x in R["incoming"] if x["b"] == incP["b"]), None)
+                        if incR is None: ok = False; break
+                        r2, o2 = fi.ptr(incP["v"]); l2 = fi.lin(incR["v"])
+                        if incP["b"] in body:
+                            if r2 == ("pending",): dP = o2                      # computed relative to the phi itself
+                            elif r2 == rootP: dP = o2 - offP
+                            else: ok = False; break
+                            if dP + (l2 - Lin.atom(ra)) != Lin() or dP == Lin() or pa in dP.atoms() or ra in dP.atoms(): ok = False; break       # p advances by exactly what r loses
+                            continue
+                        if r2 != rootP: ok = False; break
+                        if False: pass
+                        else:
+                            e0 = o2 + l2
+                            if entry is not None and entry != e0: ok = False; break
+                            entry = e0
+                    if not ok or entry is None or pa in entry.atoms() or ra in entry.atoms(): continue
+                    eq = Lin.atom(pa) + Lin.atom(ra) - entry
+                    out.setdefault(pa, []).append(eq); out.setdefault(ra, []).append(eq)
+        return out
+
     def prod_upper(self, a, facts):
         """upper bounds of a product atom prod(x, y) from the current facts (all atoms are non-negative):
            x <= N - c        =>  x*y <= N*y - c*y
@@ -360,7 +401,7 @@ class Prover:
                         finally: self._ne = ne0
                         if not r_: ok = False; break
                     if ok: return True
-                cands = list(facts)
+                cands = list(facts) + [-eq for eq in self.conserved().get(a, ())]
             for f in cands:
                 d = f.coeff(a)
                 if d == 0 or (d > 0) != (c > 0): continue
